@@ -17,7 +17,7 @@ from ..tlc import TLCError
 INV = ["DaggerIsAdjoint", "ControlledIsBlock", "IntegerPowerIsProduct", "NumQubitsImplied", "ParamsPreserved", "ChainIsWhatWasBuilt", "ReplaceParamsCommutes", "UnitaryWhenRing"]
 
 
-class Timeout(Exception):
+class Timeout(BaseException):     # not an Exception: code under test (sympy) that catches Exception must not swallow the alarm
     pass
 
 
